@@ -8,6 +8,7 @@ import (
 	"errors"
 	"fmt"
 	"io"
+	"math"
 	"mime"
 	"mime/multipart"
 	"net/http"
@@ -1189,6 +1190,10 @@ func parsePrimitiveCase(raw string, schema *openapi3.SchemaRef, typ string) (any
 		v, err := strconv.ParseFloat(raw, 64)
 		if err != nil {
 			return nil, &ParseError{Kind: KindInvalidFormat, Value: raw, Reason: "an invalid " + typ, Cause: err.(*strconv.NumError).Err}
+		}
+		// a number is a decimal number: NaN, Inf and Go's hexadecimal and underscore forms are not
+		if math.IsNaN(v) || math.IsInf(v, 0) || strings.ContainsAny(raw, "xXpP_") {
+			return nil, &ParseError{Kind: KindInvalidFormat, Value: raw, Reason: "an invalid " + typ, Cause: strconv.ErrSyntax}
 		}
 		return v, nil
 	case "boolean":
